@@ -826,6 +826,8 @@ class Interp:
             return Model('object.__sizeof__', basic_size)
         if isinstance(obj, FuncRef) and name == 'name' and self.spec:
             return obj.qualname         # (contracts only) which function
+        if isinstance(obj, FuncRef) and name == 'decos' and self.spec:
+            return getattr(obj, 'decos', ())
         if isinstance(obj, FuncRef) and name == 'closure_vars':
             out = {}
             f = obj.closure
@@ -1400,7 +1402,22 @@ class Interp:
         return False
 
     def s_FunctionDef(self, node, fr):
-        fr.assign(node.name, FuncRef(fr.module, node, node.name, closure=fr))
+        f = FuncRef(fr.module, node, node.name, closure=fr)
+        # the declarations stacked on a nested def: (last name of the
+        # decorator, its evaluated arguments), outermost first - what the
+        # function is registered AS is part of what is registered
+        decos = []
+        for d in node.decorator_list:
+            fn = d.func if isinstance(d, ast.Call) else d
+            args = ()
+            if isinstance(d, ast.Call):
+                try:
+                    args = tuple(self.eval(a, fr) for a in d.args)
+                except Unsupported:
+                    args = None
+            decos.append((ast.unparse(fn).split('.')[-1], args))
+        f.decos = tuple(decos)
+        fr.assign(node.name, f)
 
     def s_ClassDef(self, node, fr):
         fr.assign(node.name, self.world.local_class(node, fr, self))
